@@ -332,9 +332,9 @@ func c17history(c *ctx, defs []*c17def, d *c17def, mode int, withSession, verbos
 			tgt = l.key
 		}
 	}
-	o := c17runSession(d, cur, tgt, true, 0, "", history)
+	o := c17runSession(d, cur, tgt, 1, 0, "", history)
 	c.res.Count("history:session")
-	c17judge(c, d, cur, tgt, true, "", o, caseLine, verbose)
+	c17judge(c, d, cur, tgt, 1, "", o, caseLine, verbose)
 }
 
 // c17decoy: by-name loads from a private working directory that holds decoy files named exactly
